@@ -84,6 +84,7 @@ Section Measure.
   | MMeasure (key : nat) (ax : list nat) (inv : list bool) (cs : list cmap)
   | MCtrl (conds : list cond) (g : gop (K:=K))
   | MKraus (ks : list (matrix (K:=K))) (dims ax : list nat)
+  | MKrausKeyed (key : nat) (ks : list (matrix (K:=K))) (dims ax : list nat)   (* channel that records the index of the Kraus operator *)
   | MReset (ax : nat).
 
   Definition step (sh : list nat) (o : mop) (b : branch) : list branch :=
@@ -102,6 +103,10 @@ Section Measure.
         else [b]
     | MKraus ks dims ax =>
         map (fun k => {| bw := bw b; brec := brec b; bpsi := apply_tab O k dims ax sh (bpsi b) |}) ks
+    | MKrausKeyed key ks dims ax =>
+        map (fun jk => {| bw := bw b; brec := brec b ++ [(key, [fst jk], [length ks])];
+                          bpsi := apply_tab O (snd jk) dims ax sh (bpsi b) |})
+            (combine (seq 0 (length ks)) ks)
     | MReset a =>
         let d := nth a sh 2 in
         map (fun j => {| bw := bw b; brec := brec b;
@@ -151,6 +156,10 @@ Section Measure.
         then [{| dw := dw b; drec := drec b; drho := dm_apply (gate_model O (fst g)) (gate_dims (fst g)) (snd g) sh (drho b) |}]
         else [b]
     | MKraus ks dims ax => [{| dw := dw b; drec := drec b; drho := dm_kraus ks dims ax sh (drho b) |}]
+    | MKrausKeyed key ks dims ax =>
+        map (fun jk => {| dw := dw b; drec := drec b ++ [(key, [fst jk], [length ks])];
+                          drho := dm_apply (snd jk) dims ax sh (drho b) |})
+            (combine (seq 0 (length ks)) ks)
     | MReset a => let d := nth a sh 2 in [{| dw := dw b; drec := drec b; drho := dm_kraus (reset_kraus d) [d] [a] sh (drho b) |}]
     end.
   Definition dexec (sh : list nat) (ops : list mop) (init : list K) : list dbranch :=
